@@ -210,19 +210,39 @@ func (sc *zzScenario) nondetTx(attack bool) {
 		t.payload = &ctrlertypes.TrxPayloadVoting{TxHash: h, Choice: int32(zzverif.NondetI64In("tx.choice", -1, 1))}
 	case ctrlertypes.TRX_SETDOC:
 		t.to = []int{-1, 1}[zzverif.Choose("tx.to", 2)]
-		t.payload = &ctrlertypes.TrxPayloadSetDoc{Name: "name", URL: "url"}
+		// name / url at the length limit and just above it
+		pick := func(tag string) string {
+			switch zzverif.Choose(tag, 3) {
+			case 1:
+				return string(zzBytesOfLen(ctrlertypes.MAX_ACCT_NAME, 'n'))
+			case 2:
+				return string(zzBytesOfLen(ctrlertypes.MAX_ACCT_NAME+1, 'x'))
+			}
+			return "doc"
+		}
+		t.payload = &ctrlertypes.TrxPayloadSetDoc{Name: pick("tx.name"), URL: pick("tx.url")}
 	case ctrlertypes.TRX_WITHDRAW:
 		t.to = -1
 		sc.reqAmt = zzverif.NondetU256Below("tx.reqAmt", new(uint256.Int).Lsh(uint256.NewInt(1), 130))
 		t.payload = &ctrlertypes.TrxPayloadWithdraw{ReqAmt: sc.reqAmt}
 	}
-	t.amount = zzverif.NondetU256Below("tx.amount", new(uint256.Int).Lsh(uint256.NewInt(1), 101))
-	t.gas = zzverif.NondetU64In("tx.gas", 0, 1<<42)
+	if zzverif.Thorough() {
+		// full ranges: amounts up to 2^256-1 (incl. "negative" ones >= 2^255), any gas
+		t.amount = zzverif.NondetU256("tx.amount")
+		t.gas = zzverif.NondetU64("tx.gas")
+	} else {
+		t.amount = zzverif.NondetU256Below("tx.amount", new(uint256.Int).Lsh(uint256.NewInt(1), 101))
+		t.gas = zzverif.NondetU64In("tx.gas", 0, 1<<42)
+	}
 	t.gasPrice = n.gov.GasPrice()
 	if zzverif.Choose("tx.price.other", 2) == 1 {
 		t.gasPrice = new(uint256.Int).Add(n.gov.GasPrice(), uint256.NewInt(1))
 	}
-	t.nonce = zzverif.NondetU64In("tx.nonce", 0, 3)
+	if zzverif.Thorough() {
+		t.nonce = zzverif.NondetU64("tx.nonce")
+	} else {
+		t.nonce = zzverif.NondetU64In("tx.nonce", 0, 3)
+	}
 	sc.sigOK = true
 	if attack {
 		switch zzverif.Choose("tx.attack", 4) {
